@@ -139,6 +139,33 @@ pub fn signature_matches(sig: &str, sc: &Scenario, out: &RunOutput, v: &Violatio
         // segment takes the FIN's number, the FIN is never sent, the closer gives up 1 s later
         // and the peer's outstanding data is never acknowledged.
         "resegmented-past-fin" => !resegmented_past_fin_nodes(sc, out).is_empty(),
+        // F29: before the violation instant the endpoint emitted one data sequence number in
+        // two lengths, the first one longer (an MTU probe that was taken back and re-cut into
+        // more, smaller segments), and it had put its FIN on the wire before the re-cut.
+        "probe-recut-after-fin-was-sent" => {
+            use crate::hist::Ev;
+            let mut first_len: std::collections::HashMap<(std::net::SocketAddr, u16, u16), usize> = Default::default();
+            let mut fin_out: std::collections::HashSet<(std::net::SocketAddr, u16)> = Default::default();
+            let mut hit = false;
+            for (t, ev) in &out.hist.evs {
+                if *t > v.t {
+                    break;
+                }
+                if let Ev::Emit(e) = ev {
+                    if let Some(p) = e.pkt.as_ref().filter(|_| e.real) {
+                        if p.typ == crate::codec::ST_FIN {
+                            fin_out.insert((e.src, p.conn_id));
+                        } else if p.typ == crate::codec::ST_DATA {
+                            let l = *first_len.entry((e.src, p.conn_id, p.seq)).or_insert(p.payload.len());
+                            if p.payload.len() < l && fin_out.contains(&(e.src, p.conn_id)) {
+                                hit = true;
+                            }
+                        }
+                    }
+                }
+            }
+            hit
+        }
         // F6: an endpoint has accepted-but-unsent data, the peer's last advertised window is
         // zero, nothing is in flight and NO timer is armed: it waits for a window update that
         // was lost (or whose sender is gone) forever. The violation must concern that node
